@@ -74,8 +74,15 @@ func RunAll(run *hlib.Run, prop string, sigPrefixes []string, n int) {
 		}
 		jobs = append(jobs, job{s, c})
 	}
+	hangs := 0
 	for idx := 0; idx < len(jobs); idx++ {
 		if idx < len(seeds) && !run.Mine(idx) {
+			continue
+		}
+		if hangs >= 6 {
+			// the tree under test hangs again and again (each hang costs the 8 s bound): the violation is established
+			// and recorded with replays; the rest of this worker's scenarios are skipped to keep the check's run time bounded
+			run.Count("skipped-after-repeated-hangs")
 			continue
 		}
 		s := jobs[idx].seed
@@ -109,6 +116,9 @@ func RunAll(run *hlib.Run, prop string, sigPrefixes []string, n int) {
 			continue
 		}
 		run.Case(desc)
+		if res.CloseHang {
+			hangs++
+		}
 		classify(run, res)
 		for _, f := range Check(res) {
 			mine := false
